@@ -23,13 +23,14 @@ ASSUMPTIONS = ["P alone (call_Fq) and S alone (call_kernel) are the reference fo
                "parameters are located by position in the public P@S table: P block, S block minus elided volfraction, modes"]
 REQUIRED_MONITORS = ["equals_documented_combination", "results_reproduce_intensity", "reported_S_is_S_at_reported_inputs",
                      "reported_volume_is_P_shell_volume", "beta_2d_refused", "S_radius_is_weighted_mean_of_P_radius",
-                     "S_volfraction_ratio_is_ratio_of_weighted_volumes"]
+                     "S_volfraction_ratio_is_ratio_of_weighted_volumes", "reported_results_belong_to_their_evaluation"]
 REQUIRED_BUCKETS = {"quick": ["mode:0", "mode:>0", "beta:on", "beta:off", "dim:1d", "dim:2d", "P:owns_volfraction",
                               "P:hollow", "P:python", "P:no_Fq", "pd:P", "pd:radius_effective", "mesh>100",
                               "bigmesh_mode>0_no_F1_branch", "S:hardsphere", "S:hayter_msa", "S:squarewell", "S:stickyhardsphere", "lane:asan",
                               "cutoff>0", "retained_weights_do_not_sum_to_one",
                               "sequence:mode-changed-on-same-kernel", "contrast-matched:beta-on",
-                              "magnetic-P", "magnetic-P:owns-volfraction"]}
+                              "magnetic-P", "magnetic-P:owns-volfraction", "precision:python-P-with-single-S",
+                              "precision:python-P-with-long-double-S"]}
 REQUIRED_BUCKETS["thorough"] = REQUIRED_BUCKETS["quick"]
 SF = ["hardsphere", "hayter_msa", "squarewell", "stickyhardsphere"]
 _cache = {}
@@ -80,6 +81,13 @@ def gen_cases(tier, seed):
                    ("raspberry", "1d"), ("ellipsoid", "2d")]:
         cases.append({"id": "bigmesh/%s-%s" % (P, dim), "P": P, "S": SF[len(cases) % 4], "k": 700 + len(cases),
                       "seed": seed, "group": "big-" + P, "lane": "plain", "allmodes": False, "bigmesh": dim})
+    # a pure-python form factor (always double) with a compiled structure factor in another precision
+    for P in ["poly_gauss_coil", "broad_peak", "power_law"]:
+        for S in (SF if tier == "thorough" else SF[:2] + [SF[(seed + len(P)) % 4]]):
+            for dt in ("single", "quad!"):
+                if not any(c_["id"] == "mixed/%s@%s-%s" % (P, S, dt) for c_ in cases):
+                    cases.append({"id": "mixed/%s@%s-%s" % (P, S, dt), "kind": "mixed", "P": P, "S": S, "dtype": dt, "k": len(cases),
+                                  "seed": seed, "group": "mixed-" + P, "lane": "plain"})
     for P in (["cylinder", "pringle", "hollow_cylinder"] if tier == "quick" else ff[:20]):
         cases.append({"id": "asan/%s@squarewell" % P, "P": P, "S": "squarewell", "k": 77, "seed": seed,
                       "group": "asan-" + P, "lane": "asan", "allmodes": False, "cost": 4})
@@ -101,7 +109,42 @@ def s_pars(S, rng):
     return p
 
 
+def run_mixed(case, rec):
+    from sasmodels import core as sascore, direct_model
+    P, S, dt = case["P"], case["S"], case["dtype"]
+    rng = core.rng_for(case["seed"], PROP, "mixed", P, S, dt)
+    model = sascore.load_model(P + "@" + S, dtype=dt, platform="dll")
+    Pm = sascore.load_model(P, dtype="double", platform="dll")
+    Sm = sascore.load_model(S, dtype=dt, platform="dll")
+    pi = sas.info(P)
+    pp = {q_.name: float(q_.default) for q_ in pi.parameters.kernel_parameters}
+    sp = s_pars(S, rng)
+    sp["radius_effective"] = float(rng.uniform(20, 80))
+    scale, bg = float(rng.uniform(0.5, 2)), float(rng.uniform(0, 0.1))
+    q = [np.exp(rng.uniform(math.log(0.005), math.log(0.3), 5))]
+    cp = dict(pp, **sp)
+    cp.update(scale=scale, background=bg)
+    for ctl in ("radius_effective_mode", "structure_factor_mode"):
+        if ctl in model.info.parameters:
+            cp[ctl] = 0
+    I = np.asarray(direct_model.call_kernel(model.make_kernel(q), dict(cp)), float)
+    F1, F2, _R, Vs, ratio = direct_model.call_Fq(Pm.make_kernel(q), dict(pp, scale=1.0, background=0.0, radius_effective_mode=0))
+    vf = sp["volfraction"]
+    Sq = np.asarray(direct_model.call_kernel(Sm.make_kernel(q), dict(sp, scale=1.0, background=0.0, volfraction=vf*float(ratio))), float)
+    p_owns_vf = "volfraction" in pi.parameters
+    exp = scale/float(Vs)*(1.0 if p_owns_vf else vf)*np.asarray(F2, float)*Sq + bg
+    tol = 2e-4 if dt == "single" else 1e-9
+    ok = core.close(I, exp, tol, tol*float(np.max(np.abs(exp))))
+    rec.check("equals_documented_combination", ok,
+              None if ok else {"P": P + " (pure python, double)", "S": S + " (" + dt + ")", "pars": cp, "q": q[0], "observed": I,
+                               "expected": exp, "S(Q) alone in that precision": Sq})
+    rec.bucket("precision:python-P-with-%s-S" % ("single" if dt == "single" else "long-double"))
+    rec.set_shape(("mixed", P, S, dt), nontrivial=bool(np.any(np.abs(Sq - 1) > 1e-3)))
+
+
 def run_case(case, rec):
+    if case.get("kind") == "mixed":
+        return run_mixed(case, rec)
     from sasmodels import core as sascore, direct_model
     P, S, k = case["P"], case["S"], case["k"]
     pi, si = sas.info(P), sas.info(S)
@@ -250,6 +293,7 @@ def run_case(case, rec):
             rec.check("beta_2d_refused", False, dict(ctx, returned=I))
             continue
         results = kernel.results()
+        results_later = kernel.results          # the evaluator of THIS evaluation, called again further down
         # --- oracle: separate P and S calls
         kP = Pm.make_kernel(q)
         F1, F2, Reff, Vs, ratio = direct_model.call_Fq(kP, dict(pp, radius_effective_mode=mode, scale=1.0, background=0.0),
@@ -337,6 +381,19 @@ def run_case(case, rec):
                                                 observed=I2, expected=expb, reported_radius_effective=rep2,
                                                 R_eff_for_new_mode=float(Reffb)))
                 rec.bucket("sequence:mode-changed-on-same-kernel")
+            # the evaluator handed out with the first evaluation still reports that evaluation
+            late = results_later()
+            same = (np.array_equal(np.asarray(late["P(Q)"][1]), np.asarray(results["P(Q)"][1]), equal_nan=True)
+                    and np.array_equal(np.asarray(late["S(Q)"][1]), np.asarray(results["S(Q)"][1]), equal_nan=True)
+                    and float(late["volume"]) == float(results["volume"])
+                    and float(late["radius_effective"]) == float(results["radius_effective"])
+                    and float(late["volume_ratio"]) == float(results["volume_ratio"]))
+            rec.check("reported_results_belong_to_their_evaluation", same,
+                      None if same else dict(ctx, first_call={"S(Q)": results["S(Q)"][1], "radius_effective": results["radius_effective"],
+                                                              "volume": results["volume"]},
+                                             same_evaluator_after_later_evaluations={"S(Q)": late["S(Q)"][1],
+                                                                                     "radius_effective": late["radius_effective"],
+                                                                                     "volume": late["volume"]}))
         for kk in (kernel, kP, kS):
             kk.release()
 
